@@ -576,3 +576,35 @@ def ppf2PieceSize (recSize : Nat) (rows : List (List (Nat × Nat))) (s e : Nat) 
   16 + (e - s) * recSize + ((dedupDevs ((rows.drop s).take (e - s)).flatten []).map (·.2)).sum
 
 end FontVerif.Layout
+
+namespace FontVerif.Layout
+
+/-! ## byte sizes of the emitted Coverage / ClassDef tables and the split loop's estimates -/
+
+/-- serialized size: format 1 = 4 + 2·glyphs, format 2 = 4 + 6·ranges -/
+def Coverage.byteSize : Coverage → Nat
+  | .fmt1 gs => 4 + 2 * gs.length
+  | .fmt2 rs => 4 + 6 * rs.length
+
+/-- serialized size: format 1 = 6 + 2·classes, format 2 = 4 + 6·ranges -/
+def ClassDef.byteSize : ClassDef → Nat
+  | .fmt1 _ cs => 6 + 2 * cs.length
+  | .fmt2 rs => 4 + 6 * rs.length
+
+/-- the loop's coverage estimate for the piece of class-1 values `s..t`:
+`coverage_size = 4 + Σ increment_coverage_size(class)` -/
+def ppf2CovEstimate (e : Ppf2Est) (s t : Nat) : Nat := 4 + ((List.range' s (t - s)).map e.incCov).sum
+
+/-- the loop's class-definition-1 estimate for the piece `s..t` -/
+def ppf2Cd1Estimate (e : Ppf2Est) (s t : Nat) : Nat := 4 + ((List.range' s (t - s)).map e.incClassDef).sum
+
+/-- the `(glyph, class 1)` list the estimator is built from -/
+def gcOf (cov : Coverage) (cd : ClassDef) : List (Nat × Nat) := cov.glyphs.map (fun g => (g, cd.get g))
+
+/-- the covered glyphs of the piece `s..t` (keys of `split_off_ppf2`'s class map) -/
+def pieceGlyphs (cov : Coverage) (cd : ClassDef) (s t : Nat) : List Nat :=
+  (cov.glyphs.filterMap (fun g =>
+    let c := cd.get g
+    if s ≤ c ∧ c < t then some (g, c - s) else none)).map (·.1)
+
+end FontVerif.Layout
